@@ -584,6 +584,29 @@ def rule_wr_sort(cx, rep, port):
         rep.undecided(_key(c, 'finish') + ' sort', fin, 'expected exactly one sort call, found {}'.format(len(sort_calls)))
         return
     sc = sort_calls[0]
+    # the sort runs on every path to the emission: a sort that is skipped under some condition leaves the arrival order
+    gfin = cfgmod.CFG(fin)
+    sn = [n for n in gfin.nodes if cfgmod.node_contains(n, lambda x: x is sc)]
+    emit_nodes = [n for n in gfin.nodes if cfgmod.node_contains(n, lambda x: isinstance(x, ast.Call) and call_name(x) == 'self.subwriter.write')]
+    if sn and emit_nodes:
+        dom_ = gfin.dominators()
+        if not all(gfin.dominates(sn[0], e_, dom_) for e_ in emit_nodes):
+            guard = getattr(_stmt_of(sc), 'parent', None)
+            cond = node_text(guard.test, 80) if isinstance(guard, ast.If) else '?'
+            # a guard that compares neighbours with the sort's own comparator would be a sound "already sorted" test
+            cmp_name = dotted(sc.args[0]) if sc.args else None
+            same_cmp = False
+            if isinstance(guard, ast.If) and cmp_name:
+                for c_ in ast.walk(guard.test):
+                    if isinstance(c_, ast.Call) and dotted(c_.func):
+                        g_ = p.func(mod, dotted(c_.func), required=False)
+                        if g_ is not None and any(isinstance(x, ast.Call) and dotted(x.func) == cmp_name for x in ast.walk(g_)):
+                            same_cmp = True
+            if same_cmp:
+                rep.undecided(_key(c, 'finish') + ' sort', sc, 'the sort is skipped when `{}`, a test built on the sort comparator: not analysed'.format(cond))
+            else:
+                rep.violated(_key(c, 'finish') + ' sort', sc, 'the sort is skipped when `{}`: that test does not use the ORDER BY comparator (all key components, then arrival order), so entries can be emitted unsorted'.format(cond))
+            return
     kw = {k.arg: k.value for k in sc.keywords}
     if 'reverse' in kw and not is_false(kw['reverse']):
         rep.violated(_key(c, 'finish') + ' sort', sc, 'DESC is implemented with a descending sort (`reverse=` keyword): ties come out in input order instead of the exact reverse of the ascending result')
